@@ -24,6 +24,7 @@ pub fn opts_json(o: &RunOpts) -> Value {
         "final_obs": o.final_obs,
         "force_fd": o.force_fd,
         "disk": o.disk,
+        "marker_probes": o.marker_probes,
     })
 }
 
@@ -42,6 +43,7 @@ pub fn opts_from_json(v: &Value) -> RunOpts {
     o.final_obs = v.get("final_obs").and_then(|x| x.as_bool()).unwrap_or(false);
     o.force_fd = v.get("force_fd").and_then(|x| x.as_bool());
     o.disk = v.get("disk").and_then(|x| x.as_bool()).unwrap_or(false);
+    o.marker_probes = v.get("marker_probes").and_then(|x| x.as_bool()).unwrap_or(false);
     o
 }
 
